@@ -731,6 +731,7 @@ RULES = {
     "R45": Rule("R45", "self.iter_u32_digits().collect() -> { let mut it__ = self.iter_u32_digits(); let mut v__ = Vec::new(); loop { match it__.next() { Some(x__) => v__.push(x__), None => break, } } v__ }  (std: FromIterator for Vec pushes the items in the order `next` yields them, until None)",
                 "self . iter_u32_digits ( ) . collect ( )",
                 "{ let mut it__ = self . iter_u32_digits ( ) ; let mut v__ = Vec :: new ( ) ; loop { match it__ . next ( ) { Some ( x__ ) => v__ . push ( x__ ) , None => break , } } v__ }"),
+    "R3zd": Rule("R3zd", "&*self / other -> Div::div(&*self, other)", "& * self / other", "Div :: div ( & * self , other )"),
     "R16v": Rule("R16v", "Ord::cmp(&bit, &trailing_zeros) -> __u64_cmp(bit, trailing_zeros)  (std: total order on u64)",
                  "Ord :: cmp ( & bit , & trailing_zeros )", "__u64_cmp ( bit , trailing_zeros )"),
     "R0p": Rule("R0p", "crate::big_digit::BITS -> big_digit::BITS  (path of the same constant inside the unit's module)",
